@@ -18,10 +18,27 @@ import sys
 
 from common import cps
 
-FLAVORS = ['plain', 'reprov', 'strov', 'ducky']
+FLAVORS = ['plain', 'reprov', 'strov', 'ducky', 'mainnest', 'maintop', 'modnest']
 BASES = {'list': list, 'tuple': tuple, 'set': set, 'frozenset': frozenset, 'dict': dict, 'str': str,
          'bytes': bytes, 'int': int, 'float': float}
 _classes = {}
+
+
+class MainOuter:
+    """stands for a class of the running script that holds nested classes"""
+
+
+class Holder:
+    """a class of this module that holds nested classes"""
+
+
+class _Scope:
+    pass
+
+
+MAIN_SCOPE = _Scope()         # top-level names of the "running script" (eval scope of the oracles)
+MainOuter.__module__ = '__main__'
+MAIN_SCOPE.MainOuter = MainOuter
 
 
 def subclass(base, flavor):
@@ -40,10 +57,20 @@ def subclass(base, flavor):
                        'name': 'NAME', 'value': 'VALUE', '__match_args__': ('id',)})
         name = 'My%s_%s' % (base.capitalize(), flavor)
         cls = type(name, (BASES[base],), ns)
-        cls.__module__ = 'valgen'
-        cls.__qualname__ = name
+        if flavor in ('mainnest', 'maintop'):
+            # classes of the running script: printed without a module prefix, a nested one by its QUALIFIED name
+            cls.__module__ = '__main__'
+            cls.__qualname__ = ('MainOuter.' + name) if flavor == 'mainnest' else name
+            setattr(MainOuter if flavor == 'mainnest' else MAIN_SCOPE, name, cls)
+        elif flavor == 'modnest':
+            cls.__module__ = 'valgen'
+            cls.__qualname__ = 'Holder.' + name
+            setattr(Holder, name, cls)
+        else:
+            cls.__module__ = 'valgen'
+            cls.__qualname__ = name
+            setattr(sys.modules[__name__], name, cls)
         _classes[key] = cls
-        setattr(sys.modules[__name__], name, cls)
     return _classes[key]
 
 
